@@ -147,8 +147,12 @@ func c13Eval(r *hx.Run, cs c13Case) {
 		return
 	}
 	// the grid starts where the first slice starts
-	slices := promapi.VerifSliceRange(ar.start, ar.end, ar.step, (2 * time.Hour).Round(ar.step))
-	if (2 * time.Hour).Round(ar.step) > ar.Dur() {
+	qs := (2 * time.Hour).Round(ar.step)
+	if qs < ar.step {
+		qs = ar.step
+	}
+	slices := promapi.VerifSliceRange(ar.start, ar.end, ar.step, qs)
+	if qs > ar.Dur() {
 		slices = []promapi.TimeRange{{Start: ar.start, End: ar.end}}
 	}
 	g0 := slices[0].Start.Unix()
@@ -165,6 +169,7 @@ func c13Eval(r *hx.Run, cs c13Case) {
 	r.Case(fmt.Sprint(cs), nontrivial)
 	r.Count(fmt.Sprintf("slices:%d", min(len(slices), 8)))
 	r.Count(fmt.Sprintf("step-divides-2h:%v", 7200%cs.Step == 0))
+	r.Count(fmt.Sprintf("step-above-4h:%v", cs.Step > 14400))
 	r.Sample(map[string]any{"case": cs, "requests": reqs})
 	for _, s := range cs.Series {
 		if fmt.Sprint(got[s.Name]) != fmt.Sprint(want[s.Name]) {
@@ -208,6 +213,22 @@ func c13Corr(r *hx.Run) {
 	if size > 0 {
 		sl := promapi.VerifSliceRange(time.Unix(start, 0), time.Unix(end, 0), time.Duration(step)*time.Second, time.Duration(size)*time.Second)
 		r.Op(jop("slice", map[string]any{"start": start, "end": end, "res": step, "size": size}), showTR(sl))
+	}
+	// plan (slice-size choice of RangeQuery): the model's `plan` vs the hook + the same guards
+	{
+		st := hx.Pick(rr, []int64{1, 15, 60, 77, 3600, 7200, 14400, 14401, 18000, 43200})
+		look := int64(1+rr.Intn(30)) * 1800
+		qs := (2 * time.Hour).Round(time.Duration(st) * time.Second)
+		if qs < time.Duration(st)*time.Second {
+			qs = time.Duration(st) * time.Second
+		}
+		var sl []promapi.TimeRange
+		if qs > time.Duration(look)*time.Second {
+			sl = []promapi.TimeRange{{Start: time.Unix(start, 0), End: time.Unix(start+look, 0)}}
+		} else {
+			sl = promapi.VerifSliceRange(time.Unix(start, 0), time.Unix(start+look, 0), time.Duration(st)*time.Second, qs)
+		}
+		r.Op(jop("plan", map[string]any{"start": start, "end": start + look, "lookback": look, "step": st}), showTR(sl))
 	}
 	// AppendSampleToRanges: ascending samples on a grid with holes, possibly onto existing ranges
 	ls := labels.FromStrings("s", "a")
@@ -274,7 +295,7 @@ func runC13(r *hx.Run, replay string) {
 	for i := 0; i < r.N*10; i++ {
 		c13Corr(r)
 	}
-	steps := []int64{60, 300, 30, 77, 1000, 3600, 5400, 7200, 420, 61, 900, 14400}
+	steps := []int64{60, 300, 30, 77, 1000, 3600, 5400, 7200, 420, 61, 900, 14400, 18000, 21600, 14401}
 	for i := 0; i < r.N; i++ {
 		step := hx.Pick(rr, steps)
 		base := int64(1700000000) + int64(rr.Intn(200000))
@@ -282,6 +303,9 @@ func runC13(r *hx.Run, replay string) {
 			base = base / 7200 * 7200 // aligned to a slice boundary
 		}
 		look := int64(rr.Intn(8)+1) * 3600
+		if step > 14400 {
+			look = int64(rr.Intn(4)+1) * 86400
+		}
 		if rr.Intn(4) == 0 {
 			look += int64(rr.Intn(3600))
 		}
